@@ -2,6 +2,9 @@ module verifh
 
 go 1.12
 
-require github.com/tyler-sommer/stick v0.0.0
+require (
+	github.com/shopspring/decimal v1.3.1
+	github.com/tyler-sommer/stick v0.0.0
+)
 
 replace github.com/tyler-sommer/stick => /repo
